@@ -181,7 +181,17 @@ def run_invocation(spec):
                 # the other tasks finish (or die) while Conductor is busy aborting
                 kernel.st["p_line"] = 1.0
                 kernel.st.setdefault("p_exit", {})["line"] = inject["exits_after"]
+            lines["fired_n"] = lines["n"]
             signal.raise_signal(sig_by_name[inject["signal"]])
+            return None
+        if inject and lines["fired"] and inject.get("second") and not lines.get("fired2") and lines["n"] == lines["fired_n"] + inject["second"]["after"]:
+            # a second interrupt (Ctrl-C pressed twice; SIGINT from the terminal plus SIGTERM from a supervisor) while
+            # Conductor is dealing with the first one
+            lines["fired2"] = True
+            site = (fn[len(src_prefix):] if fn.startswith(src_prefix) else "subprocess.py") + ":" + str(line)
+            lines["site2"] = site
+            kernel.ev("inject2", sig=inject["second"]["signal"], site=site, func=code.co_name, live=[p.pid for p in kernel.running()])
+            signal.raise_signal(sig_by_name[inject["second"]["signal"]])
             return None
         kernel.line_point()
         return None
@@ -262,7 +272,7 @@ def run_invocation(spec):
         "procs": procs,
         "rows": rows,
         "uninterposed": sorted(set(kernel.uninterposed)),
-        "lines": {"n": lines["n"], "site": lines["site"], "fired": lines["fired"], "sites": lines["sites"] if spec.get("count_lines") else None},
+        "lines": {"n": lines["n"], "site": lines["site"], "fired": lines["fired"], "fired2": bool(lines.get("fired2")), "site2": lines.get("site2"), "sites": lines["sites"] if spec.get("count_lines") else None},
         "stats": {"states": sorted(kernel.states_seen), "sigchld": kernel.sigchld_deliveries, "max_batch": kernel.max_batch,
                   "lost_candidates": kernel.lost_candidates, "read_races": kernel.read_races, "steps": kernel.steps, "wall": time.monotonic() - t0},
         "strategy": sname,
